@@ -176,20 +176,18 @@ func (o *c05Oracle) walkStruct(fs []c05Fld, obj *c05JV, val reflect.Value, path 
 				// members: env= / inherit / nested embedded members are looked up differently by the code.
 				if fv.IsValid() && c05EmbeddedJudgeable(o, f.T.F, obj) {
 					o.class("embedded-optional:partly-present")
-					// finding F21 embedded-optional-raw-key: processAnonymousFieldOptional looks the members up
-					// under the declared key, not under the unmarshaler's canonical form of it (conf loading,
-					// WithCanonicalKeyFunc): members the document gives are silently left zero
-					known := ""
+					// (F21, repaired by 787c2c8: processAnonymousFieldOptional looked the members up under the
+					// declared key, not under the unmarshaler's canonical form of it, and left them zero)
 					for j := range f.T.F {
 						k := f.T.F[j].key(j)
 						if o.docKey(k) != k || o.canonKeys && c05ConfCamel(k) != k {
-							known = "embedded-optional-raw-key"
+							o.class("embedded-optional:member-key-not-canonical")
 						}
 					}
 					ev := fv
 					if ev.Kind() == reflect.Ptr {
 						if ev.IsNil() {
-							o.mismatch(known, "%s: the document gives members of the optional embedded struct, pointer left nil", p)
+							o.mismatch("", "%s: the document gives members of the optional embedded struct, pointer left nil", p)
 							continue
 						}
 						ev = ev.Elem()
@@ -197,12 +195,7 @@ func (o *c05Oracle) walkStruct(fs []c05Fld, obj *c05JV, val reflect.Value, path 
 					ex := c05NewOracle()
 					ex.canonKeys, ex.allStr, ex.keyFn, ex.native, ex.numText = o.canonKeys, o.allStr, o.keyFn, o.native, o.numText
 					ex.walkStruct(f.T.F, obj, ev, p)
-					for _, b := range ex.bad {
-						if b.Known == "" {
-							b.Known = known
-						}
-						o.bad = append(o.bad, b)
-					}
+					o.bad = append(o.bad, ex.bad...)
 				}
 				continue
 			}
